@@ -3981,6 +3981,12 @@ class ProfilingDataset(Dataset):
             yield x
 
     def __getitem__(self, item):
+        if not isinstance(item, (str, numbers.Integral)):
+            # Slice this dataset and not the wrapped one. Otherwise the
+            # examples of the slice bypass the profiling (e.g. the frozen copy
+            # of a ReShuffleDataset that is used by prefetch) and the creation
+            # of the slice would be counted as a fetched example.
+            return super().__getitem__(item)
         start = self.timestamp()
         # Avoid context manager: https://stackoverflow.com/a/26156031/5766934
         self.hit_count[0] += 1
